@@ -36,3 +36,32 @@ Definition qft_exponent (r c : nat) : nat := (c * r)%nat.
 (* closed form of the swap column table (proved equal to swap_col in
    Proofs/C20_ext.v); used to evaluate the model at large sizes *)
 Definition swap_col_formula (N M r : Z) : Z := (M * (r mod N) + r / N)%Z.
+
+(* ------------------------------- energy_restricted.py enr_thermal_dm(dims, E, n)
+     diags = [np.prod((n / (n + 1)) ** np.array(state)) for state in idx2state.values()]
+     diags /= np.sum(diags)
+   exact rationals; 0 ** 0 = 1 as in NumPy (qpow a 0 = 1), so a mode with
+   n_k = 0 contributes 1 to states without quanta in it and 0 to the others *)
+Fixpoint enr_weight (n : list Q) (st : list Z) : Q :=
+  match n, st with
+  | nk :: nr, sk :: sr => (qpow (nk / (1 + nk)) (Z.to_nat sk) * enr_weight nr sr)%Q
+  | _, _ => 1%Q
+  end.
+Definition enr_thermal (sts : list (list Z)) (n : list Q) : list Q :=
+  let d := map (enr_weight n) sts in map (fun x => x / qsum d)%Q d.
+
+(* definition-level meaning: the product of single-mode thermal states
+   (operator method: populations r^i / sum_{i<d} r^i) on the full space *)
+Definition partition (d : Z) (nk : Q) : Q :=
+  qsum (map (fun i => qpow (nk / (1 + nk)) i) (seq 0 (Z.to_nat d))).
+Fixpoint prod_weight (dims : list Z) (n : list Q) (st : list Z) : Q :=
+  match dims, n, st with
+  | d :: dr, nk :: nr, sk :: sr =>
+      ((qpow (nk / (1 + nk)) (Z.to_nat sk) / partition d nk) * prod_weight dr nr sr)%Q
+  | _, _, _ => 1%Q
+  end.
+Fixpoint partition_prod (dims : list Z) (n : list Q) : Q :=
+  match dims, n with
+  | d :: dr, nk :: nr => (partition d nk * partition_prod dr nr)%Q
+  | _, _ => 1%Q
+  end.
